@@ -23,7 +23,7 @@ RULE = (
     "and inner dict (also handed over as a MappingProxyType view of a dict the caller keeps), load_adj_dict input and rows, load_adj_matrix matrix, rows and side array.  Mutations: "
     "append, extend, insert, remove/pop, clear, sort, reverse, item assignment/deletion, add/discard/update as the "
     "type permits (TypeError/AttributeError = immutable, accepted).  After every mutation the structural snapshot "
-    "and the full query battery must equal their values before it.  Non-trivial = the world has >= 2 links and at "
+    "and the full query battery must equal their values before it.  Every accessor is also read TWICE in a row with nothing in between: mutating the first result may not change the second.  Non-trivial = the world has >= 2 links and at "
     "least one mutation of an exchanged container succeeded; distinct = distinct (world, caching) case; the "
     "evidence classes count (exchange point, outcome) pairs."
 )
